@@ -224,8 +224,18 @@ class StepOps:
     def other(self, e, env, ev):
         if isinstance(e, ast.Starred):
             return ("*", ev.eval(e.value, env))
-        if isinstance(e, ast.List) and not any(isinstance(x, ast.Starred) for x in e.elts):
-            return self._new(env, [ev.eval(x, env) for x in e.elts])
+        if isinstance(e, ast.List):
+            # a list display, ``[*xs]`` included: a new list object
+            out_: List[Any] = []
+            for x in e.elts:
+                if isinstance(x, ast.Starred):
+                    el = self._elements(ev.eval(x.value, env), env)
+                    if el is None:
+                        return UNKNOWN
+                    out_.extend(el)
+                else:
+                    out_.append(ev.eval(x, env))
+            return self._new(env, out_)
         if isinstance(e, (ast.ListComp, ast.SetComp, ast.DictComp)) and id(e) in env.get("@comp", {}):
             # the comprehension's loops were run by the machine (CFG expansion): what was collected
             got = env["@comp"][id(e)]
@@ -518,14 +528,19 @@ def zip_longest_table(ctx, rid: str, consumption: bool = True) -> None:
         oc = outs[0]
         tr = oc.env.get("@trace", ())
         rows = [e[1] for e in tr if e[0] == "yield"]
-        # (items taken from each source; how often an exhausted source is asked again is not compared:
-        # the property speaks of items, and a well-behaved iterator keeps answering "exhausted")
         taken = {k: oc.env.get("@itpos", {}).get(k, 0) for k in lengths}
         polled = [f"it{k}:{n}" for k, n in sorted(taken.items())]
         want_rows, want_all = zip_longest_spec(slots, lengths)
         want_taken = {k: min(lengths[k], want_all.count(k)) for k in lengths}
         want_polled = [f"it{k}:{n}" for k, n in sorted(want_taken.items())]
         ok = oc.terminal.kind == "exit" and rows == want_rows and (taken == want_taken or not consumption)
+        if ok and consumption:
+            # the whole sequence of requests, the unsuccessful ones (end-of-source detections) included
+            asked = [e[1] for e in tr if e[0] == "poll"]
+            if asked != want_all:
+                ok = False
+                polled = ["asked in the order " + " ".join(f"it{k}" for k in asked)]
+                want_polled = ["asked in the order " + " ".join(f"it{k}" for k in want_all)]
         if not ok:
             bad += 1
             if bad <= 3:
